@@ -31,7 +31,8 @@ def _choose_matrix_product_class(matrix_l: Matrix, matrix_r: Matrix) -> MatrixPr
             InvertibleMatrix,
         ):
             return InvertibleMatrixProduct
-        return SquareMatrixProduct
+        if isinstance(matrix_l, SquareMatrix) and isinstance(matrix_r, SquareMatrix):
+            return SquareMatrixProduct
     return MatrixProduct
 
 
